@@ -104,7 +104,8 @@ def _normalize_response(
                 f"with incorrect keys. Expected: {sorted(expected_keys)}, "
                 f"Got: {sorted(actual_keys)}. " + (f"Missing: {sorted(missing)}. " if missing else "") + (f"Extra: {sorted(extra)}." if extra else "")
             )
-        return response
+        # A new dict: the handler's own object is not ours to extend with emit sentinels
+        return dict(response)
     # Single value (or single value for multi-output): assign to first output
     return {data_outputs[0]: response}
 
